@@ -93,6 +93,7 @@ func setup() *Engine {
 	}
 	e := newEngine(l)
 	e.broken = broken
+	e.overlay = overlay
 	cs.resolve(e)
 	for fn, msg := range broken {
 		e.stale = append(e.stale, fmt.Sprintf("clause %s no longer type-checks: %s", fn, msg))
@@ -432,6 +433,7 @@ func cmdCheck(args []string) {
 	exit := 0
 	violations := 0
 	knownHits := 0
+	replays := 0
 	for _, ob := range failed {
 		var kf *knownFinding
 		for i := range known {
@@ -446,7 +448,13 @@ func cmdCheck(args []string) {
 		}
 		violations++
 		path := writeReplay(*prop, ob)
-		confirmed := tryReplay(e, *prop, ob, path)
+		confirmed := false
+		// replays cost seconds each: the first few failed obligations of a run are replayed, the rest keep
+		// their replay file (obligation, clause, solver output) and can be replayed with `govc replay`
+		if replays < 3 && time.Since(t0) < 150*time.Second {
+			replays++
+			confirmed = tryReplay(e, *prop, ob, path)
+		}
 		if confirmed {
 			fmt.Printf("VIOLATION property=%s replay=%s\n", *prop, path)
 		} else {
